@@ -41,8 +41,12 @@ from radical.pilot.agent.resource_manager.fork import Fork as ForkRM
 
 LIMIT     = 42                 # host-list limit of the code (mpirun ranks, srun nodes)
 SCALE     = 21                 # spec limit 2  <->  code limit 42
-LOCAL     = 'n1'               # the node the executor (and Fork) runs on
+LOCAL     = 'n1'               # the node the executor (and Fork) runs on, by default
 BASE_NODES = ['n1', 'n2', 'n3']
+# nodes whose names are prefix-related to an executor host name used by some
+# configuration ('n1', 'n12', 'n1.cluster.org'): proper prefixes, extensions,
+# short name vs FQDN.  They are nodes of their own.
+ALIAS_NODES = ['n', 'n12', 'n1.cluster.org', 'n12.cluster.org', 'n1.cluster', 'c1', 'c10']
 TMP_ROOT  = os.environ.get('RP_VERIF_TMP', '/tmp')
 
 
@@ -55,10 +59,11 @@ class InterpretError(Exception):
 #
 def _universe():
     names = list(BASE_NODES)
-    for b in BASE_NODES:
+    for b in BASE_NODES + ALIAS_NODES + ['localhost']:
         names += ['%s_%02d' % (b, j) for j in range(SCALE)]
     names += ['x%02d' % j for j in range(48)]
     names += ['localhost']
+    names += ALIAS_NODES
     return names
 
 
@@ -90,6 +95,10 @@ def _mpiexec(command='/usr/bin/mpiexec', mpt=False, use_rf=False, use_hf=False,
 
 CONFIGS = {
     'fork'           : ('FORK',          S('FORK'), {}, {}),
+    # the executor's own host name is an extension / the FQDN of another node's name
+    'fork_n12'       : ('FORK',          S('FORK'), {}, {'hostname': 'n12'}),
+    'fork_fqdn'      : ('FORK',          S('FORK'), {}, {'hostname': 'n1.cluster.org'}),
+    'fork_c10'       : ('FORK',          S('FORK'), {}, {'hostname': 'c10'}),
     'ssh'            : ('SSH',           S('SSH'),
                         {'command': '/usr/bin/ssh -o StrictHostKeyChecking=no -o ControlMaster=auto'}, {}),
     'ssh_is_rsh'     : ('SSH',           S('SSH'), {'command': '/usr/bin/rsh'}, {}),
@@ -154,6 +163,11 @@ def spec_of(cfgname):
     return dict(CONFIGS[cfgname][1])
 
 
+def hostname_of(cfgname):
+    '''host name of the node the executor of this configuration runs on'''
+    return CONFIGS[cfgname][3].get('hostname', LOCAL)
+
+
 def cfgnames_for(spec):
     '''rig configurations realising a configuration of the design model'''
     return [k for k, v in CONFIGS.items() if v[1] == spec]
@@ -210,10 +224,10 @@ def make_rm_info(extras=None):
     return info
 
 
-def _patches():
+def _patches(hostname=LOCAL):
     return [mock.patch.object(ru.zmq, 'RegistryClient', FakeRegistry),
             mock.patch.object(ru, 'env_eval', lambda *a, **k: {}),
-            mock.patch.object(ru, 'get_hostname', lambda *a, **k: LOCAL)]
+            mock.patch.object(ru, 'get_hostname', lambda *a, **k: hostname)]
 
 
 def _no_subprocess(lm):
@@ -233,8 +247,8 @@ def make_launcher(cfgname, rm_info=None):
               'resource': extras.get('resource', 'local.localhost')}
     lm_cfg.update(extras.get('lm_cfg', {}))
     if rm_info is None:
-        rm_info = shared_rm_info(extras)
-    ps = _patches()
+        rm_info = shared_rm_info({k: v for k, v in extras.items() if k != 'hostname'})
+    ps = _patches(extras.get('hostname', LOCAL))
     for p in ps:
         p.start()
     try:
@@ -797,8 +811,8 @@ def run_trace(cfgname, pls, fresh, openmp=False):
                             'fresh_raw': f['raw'], 'fresh_files': f['files']})
     finally:
         inst.close()
-    trace = {'cfg': spec_of(cfgname), 'cfgname': cfgname, 'local': [LOCAL, 'localhost'],
-             'events': events}
+    trace = {'cfg': spec_of(cfgname), 'cfgname': cfgname,
+             'local': [hostname_of(cfgname), 'localhost'], 'events': events}
     return trace, details
 
 
@@ -811,9 +825,10 @@ class LauncherSet(object):
        lm_info without command, so their creation fails and the real code
        drops them from the order'''
 
-    def __init__(self, order, broken=()):
+    def __init__(self, order, broken=(), hostname=LOCAL):
         self.configured = list(order)
         self.broken     = set(broken)
+        self.hostname   = hostname
         rm = ForkRM.__new__(ForkRM)
         rm.name  = 'FORK'
         rm._log  = rpshim.NullLog()
@@ -841,7 +856,7 @@ class LauncherSet(object):
         self.names = [CONFIGS[c][0] for c in order]
         rm._rm_info.launch_methods = dict(lms, order=list(self.names))
         FakeRegistry.store = store
-        ps = _patches()
+        ps = _patches(hostname)
         for p in ps:
             p.start()
         try:
@@ -856,6 +871,7 @@ class LauncherSet(object):
         self.sbox = tempfile.mkdtemp(prefix='rpverif_launch_', dir=TMP_ROOT)
         self.kept = list(rm._launch_order) == [CONFIGS[c][0] for c in order
                                                 if c not in self.broken]
+        self.specs = {CONFIGS[c][0]: spec_of(c) for c in order}
 
     def close(self):
         shutil.rmtree(self.sbox, ignore_errors=True)
@@ -876,17 +892,17 @@ class LauncherSet(object):
             sel = order.index(lname) + 1
         else:
             sel = len(order) + 1                 # not one of the configured methods
-        return {'ev': 'Find', 'order': order, 'cans': cans, 'sel': sel, 'kept': self.kept,
-                'task': task_json(pl)}
+        return {'ev': 'Find', 'order': order, 'cfgs': [self.specs[n] for n in order],
+                'cans': cans, 'sel': sel, 'kept': self.kept, 'task': task_json(pl)}
 
 
-def find_trace(order, broken, pls):
-    ls = LauncherSet(order, broken)
+def find_trace(order, broken, pls, hostname=LOCAL):
+    ls = LauncherSet(order, broken, hostname)
     try:
         events = [ls.find(pl) for pl in pls]
     finally:
         ls.close()
-    return {'cfg': S('NONE'), 'cfgname': 'find', 'local': [LOCAL, 'localhost'],
+    return {'cfg': S('NONE'), 'cfgname': 'find@%s' % hostname, 'local': [hostname, 'localhost'],
             'events': events}
 
 
